@@ -20,7 +20,7 @@ from collections import Counter
 
 from . import api_tie as T
 from . import common, console
-from .check_client import rand_ac_status, rand_installation, rand_zone_status
+from .check_client import answer_stimulus, correspond, rand_ac_status, rand_installation, rand_zone_status
 
 TICK = 1024
 MOMENTS = ["mid-handshake", "mid-handshake", "connect-backoff", "connecting", "after-init", "after-init", "after-init-idle",
@@ -65,6 +65,7 @@ def run(ck: common.Check, tier: str) -> None:
         gen = 4 + (i % 2)
         inst = rand_installation(gen, rng)
         moment = MOMENTS[i % len(MOMENTS)] if i < 2 * len(MOMENTS) else rng.choice(MOMENTS)
+        part1 = [("init",), ("connected",)] + [answer_stimulus(inst, k) for k in range(rng.choice([6, 6, 3, 1]))]
         rig = console.ApiRig(inst, rng)
         replay = {"kind": "lifecycle", "gen": gen, "shutdown_at": moment, "trigger": {"class": "lifecycle", "gen": gen, "moment": moment},
                   "installation": {"acs": [a.number for a in inst.acs], "zones": sorted(inst.zones)}}
@@ -166,6 +167,11 @@ def run(ck: common.Check, tier: str) -> None:
         finally:
             fresh.close()
         dist["reinit_compared"] += 1
+        # the same on the client core model (C15_api_* theorems): handshake (possibly cut short), shutdown, the
+        # console's state has moved on, init again, frames
+        part2 = [("init",), ("connected",)] + [answer_stimulus(inst, k) for k in range(6)]
+        part2 += [("frame", 0xB0, inst.ac_status_message()), ("frame", 0xB0, inst.version_message())]
+        correspond(ck, gen, inst, part1 + [("shutdown",)] + part2, "shutdown and re-init")
         if rf != ("ok", True):
             continue
         if snap_re != snap_f:
